@@ -12,10 +12,12 @@ std::vector<char> pack_schedule(const Opm::Schedule& s);
 // member-wise equality of two schedule states (the members ScheduleState::operator== compares); returns the first differing member or ""
 std::string state_member_diff(const Opm::ScheduleState& a, const Opm::ScheduleState& b, bool mask_events, bool mask_udq, bool mask_end_time);
 
-struct Trip { std::size_t packed = 0, consumed = 0, repacked = 0; bool equal = false; bool repack_equal_after_unpack = false; };
+struct Trip { std::size_t packed = 0, consumed = 0, repacked = 0, packed_now = 0; bool equal = false; bool repack_equal_after_unpack = false; };
 
 // pack `src`, unpack into a fresh object (returned through `dst`), pack the replica again and unpack that once more
-Trip trip_schedule(const Opm::Schedule& src, std::unique_ptr<Opm::Schedule>& dst, std::shared_ptr<Opm::Python> python);
+// `inplace`: after the checks the packed bytes are unpacked into this live object (how a checkpoint is loaded; Schedule::serializeOp
+// re-links the wells' unit-system pointers, a moved/copied Schedule would keep pointers into its source)
+Trip trip_schedule(const Opm::Schedule& src, std::unique_ptr<Opm::Schedule>& dst, std::shared_ptr<Opm::Python> python, Opm::Schedule* inplace = nullptr);
 Trip trip_eclipse_state(const Opm::EclipseState& src, std::unique_ptr<Opm::EclipseState>& dst);
 Trip trip_summary_config(const Opm::SummaryConfig& src, std::unique_ptr<Opm::SummaryConfig>& dst);
 Trip trip_summary_state(const Opm::SummaryState& src, std::unique_ptr<Opm::SummaryState>& dst);
